@@ -326,6 +326,8 @@ def rand_wire_pkt(R, flags=None):
             "flags": fl, "win": 0, "urg": R.choice([0, 0, 0, 0, 7]), "opts": ohex,
             "payload": R.choice(["", "", "", "41", "474554202f"]),
             "trailer": R.choice([""] * 6 + ["00", "000000000000", "aabb", "474554", bytes(R.randrange(256) for _ in range(R.randint(1, 18))).hex()])}
+    if R.random() < 0.15:
+        spec["link"] = R.choice(["ether", "ether", "dot1q", "sll"])      # as sniffed: inside a link-layer frame
     if R.random() < 0.05:
         # a payload Scapy dissects as a layer of its own (DNS over TCP, with scapy.layers.dns loaded), not as Raw
         spec["dport"] = 53
